@@ -247,11 +247,70 @@ class Scheduler:
         st.update(key=None, plan=None, opened=False, phase2=False)
         return self._next_sweep_op()
 
+    # -- deck mode: table after table, the same fixed script of reads on each
+    EXPORTER_SCRIPT = [
+        "name", "rows_dimension_name", "columns_dimension_name", "rows_dimension_type", "columns_dimension_type",
+        "table_name", "row_labels", "column_labels", "shape", "counts", "unweighted_counts", "weighted_counts",
+        "column_proportions", "column_percentages", "row_proportions", "table_proportions", "rows_margin",
+        "columns_margin", "table_margin", "rows_base", "columns_base", "table_base", "unweighted_bases",
+        "table_base_range", "column_index", "zscores", "pvals", "pairwise_indices", "inserted_row_idxs",
+        "inserted_column_idxs", "rows_dimension_fills", "population_counts", "population_counts_moe", "means",
+        "rows_scale_mean", "columns_scale_mean", "scale_mean", "min_base_size_mask", "is_empty",
+    ]
+
+    def _deck_script(self, cls):
+        surf = self.surface.get(cls, {"props": [], "methods": {}})
+        kind = self.kn.get("deck_script", "exporter")
+        if kind == "exporter":
+            names = [n for n in self.EXPORTER_SCRIPT if n in surf["props"]]
+        else:
+            names = list(surf["props"])[:: 3 if len(surf["props"]) > 60 else 1]
+            if kind == "reverse":
+                names = names[::-1]
+        script = [[n] for n in names]
+        if "row_order" in surf["methods"]:
+            script.append([{"call": "row_order", "args": []}])
+            script.append([{"call": "row_order", "args": [{"enum": ["ORDER_FORMAT", "BOGUS_IDS"]}]}])
+        return script
+
+    def _next_deck_op(self):
+        st = self.__dict__.setdefault("_deck", {"i": 0, "key": None, "plan": None, "opened": False})
+        if st["key"] is None or st["key"] not in self.handles:
+            sid = self.spec_ids[st["i"] % len(self.spec_ids)]
+            st["i"] += 1
+            cid = self.clients[0]
+            hid = "h%d" % self.next_hid[cid]
+            self.next_hid[cid] += 1
+            st.update(key="%s.%s" % (cid, hid), plan=None, opened=False)
+            return ["CONSTRUCT", cid, hid, sid]
+        hv = self.handles[st["key"]]
+        if not st["opened"]:
+            st["opened"] = True
+            root = "partition_sets" if hv.nodes[pkey([])][1] == "cube.CubeSet" else "partitions"
+            return ["READ", hv.cid, hv.hid, [root]]
+        if st["plan"] is None:
+            parts = sorted(k for k, (_p, cls) in hv.nodes.items() if cls in PARTITION_CLASSES)[:3]
+            plan = []
+            for nk in parts:
+                path, cls = hv.nodes[nk]
+                plan.extend(path + seg for seg in self._deck_script(cls))
+            st["plan"] = plan[::-1]
+        if st["plan"]:
+            return ["READ", hv.cid, hv.hid, st["plan"].pop()]
+        # table done: most exporters drop it, some keep every table alive until the end
+        key = st["key"]
+        st.update(key=None, plan=None, opened=False)
+        if "F2" in self.kn["faults"] or self.rnd.random() < 0.5:
+            return ["DROP", hv.cid, hv.hid]
+        return self._next_deck_op()
+
     def next_op(self):
         r = self.rnd
         self.steps += 1
         if self.kn.get("mode") == "sweep":
             return self._next_sweep_op()
+        if self.kn.get("mode") == "deck":
+            return self._next_deck_op()
         cid = self._client()
         faults = self.kn["faults"]
         if not self.by_client[cid]:
